@@ -657,6 +657,18 @@ func (c *Ctx) havocLoopTargets(env *Env, st *State, nodes []ast.Node) {
 			st.heap[k] = c.fresh("H'"+k, fmt.Sprintf("(Array Int %s)", c.heapSorts[k]))
 		}
 	}
+	// generator bodies: a loop that yields changes the ghost output sequences
+	if _, isGen := st.ghost["stopped_"]; isGen && containsYield(env, nodes) {
+		for _, k := range []string{"out_", "out2_"} {
+			if v, ok := st.ghost[k]; ok && v.Ty != nil {
+				nv := env.havoc(st, k, v.Ty)
+				st.ghost[k] = nv
+			}
+		}
+		// implicit invariant of generator loops: the consumer has not stopped the iteration
+		// when control is back at the loop head (checked at every back edge)
+		st.ghost["stopped_"] = Val{T: "false", Ty: tBool}
+	}
 	// fields not yet touched but written in the loop are created lazily as fresh symbols,
 	// which is equivalent to a havoc
 	for f := range fields {
@@ -741,6 +753,7 @@ func (c *Ctx) execFor(env *Env, x *ast.ForStmt, st *State, label string) []*Stat
 			e = outs[0]
 		}
 		checkInvs(e, fmt.Sprintf("keep@p%d", pi))
+		c.genKeep(e, n, pi, x.Pos())
 		if variant != "" {
 			nv := ie.eval(spec.Decr.Expr, e).T
 			c.addObl(e, fmt.Sprintf("loop%d/decr@p%d", n, pi), "decr", and(app("<", nv, variant), app("<=", "0", variant)), c.e.pos(x.Pos()), "decreases "+spec.Decr.Text, nil)
@@ -760,7 +773,7 @@ func (c *Ctx) addCover(st *State, name string, pos token.Pos) {
 	if c.inlineTag != "" || c.noSafety {
 		return
 	}
-	o := &Obligation{Name: "cover." + c.fi.Key + "/" + name, Kind: "cover", Func: c.fi.Key, Assume: append([]string(nil), st.pc...), Goal: "false", Decls: c.decls, Where: c.e.pos(pos), Cover: true, Props: c.props}
+	o := &Obligation{Name: "cover." + c.fi.Key + "/" + name, Kind: "cover", Func: c.fi.Key, Assume: untag(st.pc), Goal: "false", Decls: c.decls, Where: c.e.pos(pos), Cover: true, Props: c.props}
 	c.obls = append(c.obls, o)
 }
 
@@ -879,6 +892,7 @@ func (c *Ctx) execRange(env *Env, x *ast.RangeStmt, st *State, label string) []*
 	next := Val{T: app("+", i.T, "1"), Ty: tInt}
 	for pi, e := range ends {
 		checkInvs(e, next, fmt.Sprintf("keep@p%d", pi))
+		c.genKeep(e, n, pi, x.Pos())
 	}
 	exit := st
 	exit.assume(eq(i.T, lenT))
@@ -958,6 +972,7 @@ func (c *Ctx) execRangeMap(env *Env, x *ast.RangeStmt, st *State, label string, 
 	fr.loops = fr.loops[:len(fr.loops)-1]
 	for pi, e := range ends {
 		check(e, app("store", visited, k.T, "true"), app("+", count.T, "1"), fmt.Sprintf("keep@p%d", pi))
+		c.genKeep(e, n, pi, x.Pos())
 	}
 	exit := st
 	exit.assume(fmt.Sprintf("(forall ((%s %s)) (= (select %s %s) (select %s %s)))", kq, ks, visited, kq, has, kq))
@@ -1026,4 +1041,31 @@ func (c *Ctx) execReturn(env *Env, x *ast.ReturnStmt, st *State) {
 		return
 	}
 	fr.returns = append(fr.returns, retState{st: st, vals: vals})
+}
+
+func containsYield(env *Env, nodes []ast.Node) bool {
+	found := false
+	for _, n := range nodes {
+		if n == nil {
+			continue
+		}
+		ast.Inspect(n, func(nd ast.Node) bool {
+			if ce, ok := nd.(*ast.CallExpr); ok {
+				if id, ok := unparen(ce.Fun).(*ast.Ident); ok && id.Name == "yield" {
+					found = true
+				}
+			}
+			return true
+		})
+	}
+	return found
+}
+
+// genKeep: back edge of a loop inside a generator body: the iteration was not stopped.
+func (c *Ctx) genKeep(e *State, n, pi int, pos token.Pos) {
+	sv, ok := e.ghost["stopped_"]
+	if !ok || sv.T == "false" {
+		return
+	}
+	c.addObl(e, fmt.Sprintf("loop%d/gen-not-stopped@p%d", n, pi), "gen", not(sv.T), c.e.pos(pos), "a generator loop continues only while the consumer wants more", nil)
 }
